@@ -1038,3 +1038,87 @@ V('C04', 'wrong-timed-event', FSM, "                    timed_event = self._ct_t
 V('C04', 'timer-table', 'edzed/blocklib/fsms.py', "        'on': (fsm.INF_TIME, 'stop'),\n", "        'on': (fsm.INF_TIME, 'start'),\n", 'R04.9')
 E('C04', 'gt-form', FSM, "        if duration <= 0.0:\n            self.log_debug(\"timer: zero delay before %s\", timed_event)\n            self.event(timed_event)\n            return\n        self._set_timer(duration, timed_event)", "        if duration > 0.0:\n            self._set_timer(duration, timed_event)\n            return\n        self.log_debug(\"timer: zero delay before %s\", timed_event)\n        self.event(timed_event)")
 E('C04', 'expiry-finally', FSM, "        self._active_timer = None\n        self.event(timed_event)\n", "        timer, self._active_timer = self._active_timer, None\n        self.event(timed_event)\n", note='tuple assignment')
+
+# ----------------------------------------------------------------------------- C05
+V('C05', 'f4-reverted', SIM, "        if (error := self._error) is not None or self._simtask.done():", "        error = self._error\n        if self._simtask.done():", 'R05.7')
+V('C05', 'value-before-regular', SIM, """                blk.init_regular()
+                if (not blk.is_initialized()
+                        and blk.has_method('init_from_value')
+                        and blk.initdef is not block.UNDEF):
+                    blk.init_from_value(blk.initdef)
+""", """                if (not blk.is_initialized()
+                        and blk.has_method('init_from_value')
+                        and blk.initdef is not block.UNDEF):
+                    blk.init_from_value(blk.initdef)
+                blk.init_regular()
+""", 'R05.1')
+V('C05', 'value-unguarded', SIM, """                if (not blk.is_initialized()
+                        and blk.has_method('init_from_value')
+                        and blk.initdef is not block.UNDEF):
+                    blk.init_from_value(blk.initdef)""", """                if (blk.has_method('init_from_value')
+                        and blk.initdef is not block.UNDEF):
+                    blk.init_from_value(blk.initdef)""", 'R05.1')
+V('C05', 'marker-missing', SIM, "                blk.init_steps_completed = -2\n", "", 'R05.1')
+V('C05', 'restore-after-regular', SIM, """            if steps == 0:
+                blk.init_steps_completed = -1
+                if isinstance(blk, addons.AddonPersistence) and blk.persistent:
+                    blk.init_from_persistent_data()
+                    if blk.is_initialized():
+                        blk.log_debug("initialized from saved state")
+                blk.init_steps_completed = 1
+            if steps == 1 or steps == 0 and full:
+                blk.init_steps_completed = -2
+                blk.init_regular()""", """            if steps == 0:
+                blk.init_steps_completed = -1
+                blk.init_steps_completed = 1
+            if steps == 1 or steps == 0 and full:
+                blk.init_steps_completed = -2
+                blk.init_regular()
+                if isinstance(blk, addons.AddonPersistence) and blk.persistent:
+                    blk.init_from_persistent_data()""", 'R05.1')
+V('C05', 'step2-always', SIM, "            if steps == 1 or steps == 0 and full:\n", "            if steps <= 1:\n", 'R05.2')
+V('C05', 'early-init-range', BLK, "            if 0 <= self.init_steps_completed < 2:\n", "            if self.init_steps_completed < 2:\n", 'R05.2')
+V('C05', 'merged-check', SIM, """        for blk in self.getblocks(block.SBlock):
+            self.init_sblock(blk, full=False)
+            # do not test yet, because the block might be still uninitialized
+            # and waiting for an event that will be sent during another block's init
+        for blk in self.getblocks(block.SBlock):
+            if not blk.is_initialized():
+                raise EdzedCircuitError(f"{blk}: not initialized")
+""", """        for blk in self.getblocks(block.SBlock):
+            self.init_sblock(blk, full=False)
+            if not blk.is_initialized():
+                raise EdzedCircuitError(f"{blk}: not initialized")
+""", 'R05.4')
+V('C05', 'timeout-ge', SIM, "                and blk.init_timeout > 0.0]", "                and blk.init_timeout >= 0.0]", 'R05.5')
+V('C05', 'bare-await', SIM, "                        await asyncio.wait_for(task, timeout - get_time() + start_time)", "                        await task", 'R05.5')
+V('C05', 'ascending-sort', SIM, "sorted(btt_list, key=operator.itemgetter(2), reverse=True)", "sorted(btt_list, key=operator.itemgetter(2))", 'R05.5')
+V('C05', 'signal-before-sync2', SIM, """            self._init_sblocks_sync_2()
+            start_ok = True
+
+            if self._error is None:
+                self.log_debug("Starting simulation")
+                self._init_done.set()""", """            self._init_done.set()
+            self._init_sblocks_sync_2()
+            start_ok = True
+
+            if self._error is None:
+                self.log_debug("Starting simulation")""", 'R05.3')
+V('C05', 'init-error-logged', SIM, """        except Exception as err:
+            # add the block name
+            add_note(err, f"block: {blk}, initialization error")
+            raise
+""", """        except Exception as err:
+            # add the block name
+            add_note(err, f"block: {blk}, initialization error")
+            blk.log_error("initialization error: %s", err)
+""", 'R05.6')
+V('C05', 'async-also-initialized', SIM, "            if not blk.is_initialized()\n                and blk.has_method('init_async')", "            if blk.has_method('init_async')", 'R05.5')
+V('C05', 'second-caller', S2, "    def init_regular(self) -> None:\n        if self.is_initialized() or self.initdef is not block.UNDEF:\n            return      # is initialized or will be initialized", "    def init_regular(self) -> None:\n        if self.initdef is not block.UNDEF:\n            self.init_from_value(self.initdef)\n        if self.is_initialized():\n            return      # is initialized or will be initialized", 'R05.2')
+E('C05', 'list-copy', SIM, """        for blk in self.getblocks(block.SBlock):
+            if not blk.is_initialized():
+                raise EdzedCircuitError(f"{blk}: not initialized")""", """        for blk in self.getblocks(block.SBlock):
+            if blk.is_initialized():
+                continue
+            raise EdzedCircuitError(f"{blk}: not initialized")""")
+E('C05', 'isready-test', SIM, "        if (error := self._error) is not None or self._simtask.done():", "        error = self._error\n        if not self.is_ready() or self._simtask.done():")
